@@ -148,3 +148,21 @@ def psum(ex, se, xs):
     se.facts.append(S(0) == 0)
     se.facts.append(z3.ForAll([j], z3.Implies(j >= 0, S(j + 1) == S(j) + arr[j]), patterns=[S(j + 1)]))
     return VFunc("uf", name="S", argtys=[parse_ty("int")], retty=parse_ty("int"), fns=[S])
+
+
+@spec_fn("count_nonempty")
+def count_nonempty(ex, se, f):
+    """C with C(0) = 0 and C(j+1) = C(j) + (0 if the box payloads[j] holds the fiber's default else 1)."""
+    C = z3.Function(fresh_name("C"), I, I)
+    if isinstance(f, VOpt):
+        f = f.val
+    payloads = _fld(ex, se, f, "payloads")
+    tmp = State()
+    tmp.heap = se.st.heap
+    arr = list_arrays(tmp, payloads)[0]
+    d = ex.sp_load(se, f.t, "Fiber", "g_default")
+    j = z3.Int("j!b")
+    val = ex.sp_load(se, arr[j], "Payload", "value")
+    se.facts.append(C(0) == 0)
+    se.facts.append(z3.ForAll([j], z3.Implies(j >= 0, C(j + 1) == C(j) + z3.If(val.t == ops.as_u(d), 0, 1)), patterns=[C(j + 1)]))
+    return VFunc("uf", name="C", argtys=[parse_ty("int")], retty=parse_ty("int"), fns=[C])
